@@ -102,6 +102,41 @@ class MaybeV(namedtuple("MaybeV", "v why")):
 SliceV = namedtuple("SliceV", "lo hi step")  # the bounds of a slice, for domains with slice_values = True
 
 
+def as_lambda(fdef):
+    """A nested function whose body is one `return <expr>` (after an optional docstring), without decorators, as the
+    equivalent ast.Lambda node (cached on the FunctionDef, positions copied); None for any other function."""
+    if getattr(fdef, "_as_lambda", False) is not False:
+        return fdef._as_lambda
+    body = list(fdef.body)
+    if body and isinstance(body[0], ast.Expr) and isinstance(body[0].value, ast.Constant) and isinstance(body[0].value.value, str):
+        body = body[1:]
+    lam = None
+    if len(body) == 1 and isinstance(body[0], ast.Return) and body[0].value is not None and not fdef.decorator_list and not any(isinstance(n, (ast.Yield, ast.YieldFrom, ast.Await)) for n in ast.walk(body[0])):
+        lam = ast.Lambda(args=fdef.args, body=body[0].value)
+        ast.copy_location(lam, fdef)
+        lam._from_def = fdef.name
+    fdef._as_lambda = lam
+    return lam
+
+
+def callable_expr(fn_node, expr):
+    """The lambda an expression of function `fn_node` denotes: a lambda itself, or a local name bound exactly once -
+    to a lambda, or by a nested single-return `def`.  -> ast.Lambda or None."""
+    if isinstance(expr, ast.Lambda):
+        return expr
+    if isinstance(expr, ast.Name):
+        binds = []
+        for n in ast.walk(fn_node):
+            if isinstance(n, ast.FunctionDef) and n is not fn_node and n.name == expr.id:
+                binds.append(as_lambda(n))
+            elif isinstance(n, ast.Name) and n.id == expr.id and isinstance(n.ctx, ast.Store):
+                p = getattr(n, "_parent", None)
+                binds.append(p.value if isinstance(p, ast.Assign) and len(p.targets) == 1 and isinstance(p.value, ast.Lambda) else None)
+        if len(binds) == 1 and binds[0] is not None:
+            return binds[0]
+    return None
+
+
 class LambdaV(namedtuple("LambdaV", "node closure")):
     """A lambda expression as a value: its node plus the values its free variables had where it was created."""
 
@@ -654,9 +689,15 @@ class Domain:
             return None
         a = lam.node.args
         names = [x.arg for x in a.posonlyargs + a.args]
-        if a.vararg or a.kwarg or a.kwonlyargs or len(args) > len(names):
+        star = kwargs.pop("#star", None) if isinstance(kwargs, dict) else None  # symbolic application: the values of *a / **k
+        dstar = kwargs.pop("#dstar", None) if isinstance(kwargs, dict) else None
+        if ((a.vararg is not None) != (star is not None)) or ((a.kwarg is not None) != (dstar is not None)) or a.kwonlyargs or len(args) > len(names):
             return None
         bound = dict(lam.closure)
+        if star is not None:
+            bound[a.vararg.arg] = star
+        if dstar is not None:
+            bound[a.kwarg.arg] = dstar
         bound.update(zip(names, args))
         for k, v in kwargs.items():
             if k in names:
@@ -777,7 +818,10 @@ class Interp:
 
     def s_FunctionDef(self, st, state, trace, ctx):
         o = Outs()
-        o.add("norm", self.dom.name_store(st.name, Opaque("def@%d" % st.lineno), state, st), None, trace)
+        lam = as_lambda(st) if isinstance(st, ast.FunctionDef) else None
+        # a nested `def f(x): return <expr>` is the lambda `lambda x: <expr>` bound to f
+        val = self.dom.lambda_(lam, state) if lam is not None else Opaque("def@%d" % st.lineno)
+        o.add("norm", self.dom.name_store(st.name, val, state, st), None, trace)
         return o
 
     s_ClassDef = s_FunctionDef
